@@ -6,7 +6,7 @@ fail=0
 for d in seeded/*/; do
   id=$(basename $d)
   checks=$(python3 -c "import json;print(' '.join(json.load(open('$d/meta.json'))['detected_by']))")
-  git -C /repo apply $d/patch.diff || { echo "$id: PATCH DOES NOT APPLY"; fail=1; continue; }
+  git -C /repo apply /verif/$d/patch.diff || { echo "$id: PATCH DOES NOT APPLY"; fail=1; continue; }
   hit=""
   for c in $checks; do
     timeout 3000 ./check $c quick > /tmp/seedreg.out 2>&1; rc=$?
